@@ -702,7 +702,12 @@ class Visitor(ast.NodeVisitor):
             args = []  # type: List[Any]
             for arg_node in node.args:
                 if isinstance(arg_node, ast.Starred):
-                    args.extend(self.visit(node=arg_node))
+                    # There is no value of a starred node; we re-compute and unpack the value which is starred.
+                    starred_value = self.visit(node=arg_node.value)
+                    if starred_value is PLACEHOLDER:
+                        return PLACEHOLDER
+
+                    args.extend(starred_value)
                 else:
                     args.append(self.visit(node=arg_node))
 
